@@ -56,7 +56,7 @@ PROBES = [
     "overwrite_false_existing", "overwrite_true_existing", "preseeded_archive", "compressed", "raw_reload",
     "npy_reload", "npz_reload", "save_empty", "cross_accumulator_path", "suffix_text_in_directory",
     "accumulate_on_loaded_instance", "save_with_warnings_as_errors", "save_empty_after_loading_zero_count",
-    "loaded_with_other_norm_var",
+    "loaded_with_other_norm_var", "overwrite_flag_on_npy_or_raw",
 ]
 FAULT_KINDS = ["prior_content_numpy_archive", "prior_content_compressed_archive", "prior_content_own_save",
                "prior_content_npy", "prior_content_raw"]
@@ -80,7 +80,7 @@ def generate(rng, tier, k):
         rec = {"regime": regime, "n": rng.choice((rng.randrange(2, 40), rng.randrange(2, 40), rng.randrange(40, 200))),
                "d": d, "seed": rng.randrange(1 << 30)}
         if regime == "const":
-            rec["values"] = [rng.choice((0.3, -11.512925464970229, -13.7, 0.1, 1e-3, 7.0)) for _ in range(d)]
+            rec["values"] = [rng.choice((0.3, -11.512925464970229, -13.7, 0.1, 1e-3, 7.0, 0.0, 0.0)) for _ in range(d)]
             rec["free_cols"] = [j for j in range(d) if rng.random() < 0.4]
         elif regime == "exact":
             rec["spread"] = rng.choice((512, 4096))
@@ -113,6 +113,10 @@ def generate(rng, tier, k):
                 op["key"] = rng.choice((None, None, None, "k1", "stats", "arr_0", "arr_1", "arr_10"))
                 op["compress"] = rng.random() < 0.35
                 op["overwrite"] = rng.choice((True, False, None))  # None = use the default
+            elif rng.random() < 0.3:
+                # the flags are accepted (and documented as irrelevant) for .npy and raw targets too
+                op["overwrite"] = rng.choice((True, False))
+                op["compress"] = rng.random() < 0.3
             ops.append(op)
             saved.setdefault(p, []).append(op.get("key"))
         elif r < 0.85:
@@ -326,6 +330,12 @@ def _run(scn, d, base, res, tr):
                     res.probe("compressed")
                 if op.get("overwrite") is not None:
                     kw["overwrite"] = bool(op["overwrite"])
+            else:
+                if op.get("overwrite") is not None:
+                    kw["overwrite"] = bool(op["overwrite"])
+                    res.probe("overwrite_flag_on_npy_or_raw")
+                if op.get("compress"):
+                    kw["compress"] = True
             overwrite = kw.get("overwrite", True)
             prior = dirm.get(p)
             if existed:
